@@ -90,6 +90,34 @@ def call(ex, f, args, kw, st, node=None):
     if f is iter:
         lib('iter')
         return [(st, make_iter(ex, st, args[0], 'seq_iter'))]
+    if (f is max or f is min) and len(args) == 1:
+        # max / min of a sequence with known elements (ints)
+        seq = _concrete_seq(ex, args[0], st)
+        if seq is None:
+            raise OutsideSubset('%s of an unknown sequence' % f.__name__)
+        if not seq:
+            raise PyExc('ValueError', '%s() arg is an empty sequence' % f.__name__)
+        if all(not isinstance(x, Sym) for x in seq):
+            return [(st, f(seq))]
+        acc = ex.z_int(seq[0])
+        for x in seq[1:]:
+            y = ex.z_int(x)
+            acc = z3.If(acc >= y, acc, y) if f is max else z3.If(acc <= y, acc, y)
+        return [(st, SInt(z3.simplify(acc)))]
+    if f is map and len(args) == 2:
+        # map(g, seq) over a sequence with known elements: the tuple of g(x) (g must not fork)
+        seq = _concrete_seq(ex, args[1], st)
+        if seq is None:
+            raise OutsideSubset('map over an unknown sequence')
+        out = []
+        cur = st
+        for x in seq:
+            r = ex.call(args[0], [x], {}, cur)
+            if len(r) != 1:
+                raise OutsideSubset('map: the mapped function forks')
+            cur, v = r[0]
+            out.append(v)
+        return [(cur, tuple(out))]
     if f is max or f is min:
         a, b = args
         if not isinstance(a, Sym) and not isinstance(b, Sym):
@@ -163,7 +191,7 @@ def call(ex, f, args, kw, st, node=None):
         if h:
             return h(v, st)
         raise OutsideSubset('reversed')
-    if f is sum or f is map or f is sorted or f is zip:
+    if f is sum or f is sorted or f is zip:
         raise OutsideSubset(f.__name__)
     # itertools / collections used by utils.consume
     import itertools
@@ -298,6 +326,17 @@ def py_int(ex, v, st):
         ex.raise_on(s2, 'ValueError', 'int(str)')
         return [(st, r)]
     raise OutsideSubset('int(%r)' % (v,))
+
+
+def _concrete_seq(ex, v, st):
+    """the elements of a tuple or of a list whose elements are all known; None otherwise"""
+    if isinstance(v, tuple) and not ex.W.is_tt(v):
+        return list(v)
+    if isinstance(v, LRef):
+        items = st.lists[v.lid]
+        if all(it[0] == 'el' for it in items):
+            return [it[1] for it in items]
+    return None
 
 
 def py_next(ex, args, st):
